@@ -126,17 +126,19 @@ Section Md.
   Definition mstep (st : mstate) (o : op) : mstate * out :=
     match o with
     | OCreate n0 =>
-      let n := norm n0 in
-      if name_eqb n INBOX then (st, out_no 0)
-      else match lsplit lay n with
-           | None => (st, out_no 4)
-           | Some parts =>
-             if negb (ancestors_ok st parts) then (st, out_no 2)
-             else if amem n (x_folders st) then (st, out_no 1)
-             else if negb (parent_ok st parts) then (st, out_no 2)
-             else (x_with st (aset n (fresh uid0 (x_next st)) (x_folders st)) (x_next st + 1),
-                   {| o_cond := COk; o_list := []; o_status := None; o_newid := Some (x_next st) |})
-           end
+      match create_name n0 with
+      | inr k => (st, out_no k)
+      | inl n =>
+        match lsplit lay n with
+        | None => (st, out_no 4)
+        | Some parts =>
+          if negb (ancestors_ok st parts) then (st, out_no 2)
+          else if amem n (x_folders st) then (st, out_no 1)
+          else if negb (parent_ok st parts) then (st, out_no 2)
+          else (x_with st (aset n (fresh uid0 (x_next st)) (x_folders st)) (x_next st + 1),
+                {| o_cond := COk; o_list := []; o_status := None; o_newid := Some (x_next st) |})
+        end
+      end
     | ODelete n0 =>
       let n := norm n0 in
       if name_eqb n INBOX then (st, out_no 0)
@@ -151,9 +153,11 @@ Section Md.
                   end
            end
     | ORename a0 b0 =>
-      let a := norm a0 in let b := norm b0 in
-      if name_eqb b INBOX then (st, out_no 0)
-      else if name_eqb a INBOX then (st, out_no 4)
+      let a := norm a0 in
+      match rename_dest b0 with
+      | inr k => (st, out_no k)
+      | inl b =>
+      if name_eqb a INBOX then (st, out_no 4)
       else if starts_with (a ++ [DELIM]) b then (st, out_no 4)
       else
         let t := x_tree st in
@@ -173,8 +177,10 @@ Section Md.
             end
           end
         end
+      end
     | OSubscribe n0 =>
       let n := norm n0 in
+      if inbox_case_bad n then (st, out_no 4) else
       match lsplit lay n with
       | None => (st, out_no 4)
       | Some _ => ({| x_inbox := x_inbox st; x_folders := x_folders st;
